@@ -38,6 +38,8 @@ ASSUMPTIONS = ['every published version is a list of newline-terminated lines no
                '"Index unusable" = missing or syntactically unparsable (some line is neither "Name: ...", nor a continuation line, nor a blank '
                'separator - the documented line grammar, kept as a 20-line reference in the harness); for an Index that is grammatical but '
                'semantically incomplete or damaged only the safety half (nothing corrupted, no .new left) is demanded',
+               'the process locale is not part of the statement: a quarter of the shards run with an ASCII locale encoding (no UTF-8 mode) '
+               'and must converge on non-ASCII content all the same',
                'faults are injected at the I/O boundary from the harness (module-level open shadowing the builtin for *.new, audit-hook '
                'veto of os.rename/os.replace) and by sys.monitoring LINE failpoints; single faults only']
 ANCHORS = ['debian.debian_support:update_file', 'debian.debian_support:replace_file', 'debian.debian_support:download_file',
@@ -416,7 +418,8 @@ def run_advance(ctx, case):
                     after = f.read()
             tag = 'advance/stage%d' % stage
             if err is not None or ret is None or ''.join(ret) != target or after != target or os.path.exists(local + '.new'):
-                ctx.violation('does-not-follow-an-advancing-mirror' if stage else 'returned-without-converging',
+                ctx.violation('download-decoded-with-the-locale-encoding' if isinstance(err, UnicodeError) else
+                              'does-not-follow-an-advancing-mirror' if stage else 'returned-without-converging',
                               '%s: err %r, returned %r..., local %r..., published %r...'
                               % (tag, err, ret and ''.join(ret)[:80], after and after[:80], target[:80]), case)
                 return
@@ -622,6 +625,8 @@ def _one(ctx, case, d, count_only=False):
                 k = 'error-without-a-fault-on-the-taken-path'
                 if isinstance(err, NotImplementedError) and alg == 'sha256':
                     k = 'sha256-index-unusable-on-this-python'
+                if isinstance(err, UnicodeError):
+                    k = 'download-decoded-with-the-locale-encoding'
                 ctx.violation(k, '%s: %r' % (tag, err), case)
         # ---------------- T: trace specification
         ctx.mon('T.trace')
@@ -678,7 +683,8 @@ def _one(ctx, case, d, count_only=False):
                 with open(local, encoding='utf-8') as f:
                     after2 = f.read()
             if err2 is not None or ret2 is None or ''.join(ret2) != target or after2 != target or os.path.exists(local + '.new'):
-                ctx.violation('next-call-after-%s-does-not-converge' % ('transient-failure' if err is not None else 'success'),
+                ctx.violation('download-decoded-with-the-locale-encoding' if isinstance(err2, UnicodeError) else
+                              'next-call-after-%s-does-not-converge' % ('transient-failure' if err is not None else 'success'),
                               '%s: second call: err %r, returned %r..., local %r..., published %r...'
                               % (tag, err2, ret2 and ''.join(ret2)[:80], after2 and after2[:80], target[:80]), case)
             elif err is None and after == target and ([u for u in urls2 if not u.endswith('.diff/Index')]
